@@ -820,6 +820,9 @@ class Sim(object):
             return False
         if timeout == float("inf"):
             raise HarnessHang("infinite selector wait with nothing ever to come")
+        hook = self.scn.get("_idle_hook")
+        if hook is not None:
+            hook(self)          # e.g. park the event-loop thread of a scheduled run
         self.now += timeout
         self.idle_waits += 1
         self.wait_log.append((t0, timeout, False, self.now))
